@@ -8,6 +8,7 @@ import (
 	"fmt"
 	"math/rand"
 	"os"
+	"sort"
 	"strings"
 	"time"
 
@@ -229,7 +230,10 @@ func (r *reader) stream(lo, hi bound, rev uint64) {
 		hdr = env.B.GetCurrentRevision()
 	}
 	env.Rec.Log(gate.Event{"e": "RReturn", "p": p, "op": "stream", "err": serr, "hdr": gate.Clip(hdr), "kvs": kvs, "more": false, "count": 0, "brevs": brevs, "terms": terms, "api": "native", "ecount": -1})
-	r.note(fmt.Sprintf("stream [%d,%d)@%d -> %v %v %v", lo.ceil, hi.ceil, rev, serr, kvs, terms))
+	// (a stream over several partitions delivers its batches in any order: the transcript line is order-free)
+	sorted := append([]interface{}(nil), kvs...)
+	sort.Slice(sorted, func(i, j int) bool { return fmt.Sprint(sorted[i]) < fmt.Sprint(sorted[j]) })
+	r.note(fmt.Sprintf("stream [%d,%d)@%d -> %v %v %v", lo.ceil, hi.ceil, rev, serr, sorted, terms))
 }
 
 // sweep issues reads over the bounded space; frac < 1 samples it.
@@ -432,6 +436,12 @@ func runSeqHistory(eng *kb.Engine, engName string, b *seqBehaviour, rnd *rand.Ra
 					eng.SplitAt(env.InternalKey(k, 0))
 				}
 			}
+			// ... and a region border BEYOND the end of the prefix, with a foreign record between the two: the last
+			// region that overlaps a scan of the prefix then ends after the scan does
+			eng.SplitAt(kb.Coder.EncodeObjectKey([]byte(env.Prefix+"1/zz"), 0))
+			fb := eng.KV.BeginBatchWrite()
+			fb.Put(kb.Coder.EncodeObjectKey([]byte(env.Prefix+"1/a"), 1), []byte("foreign"), 0)
+			fb.Commit(context.Background())
 		}
 		if last {
 			rd.sweep(rnd, b.NKeys, b.Base, cur, opt.finalFrac, opt.streams)
